@@ -254,8 +254,10 @@ bool splinetable<Alloc>::read_fits_core(fitsfile* fits, const std::string& fileP
 				aux[i] = allocate<char_ptr>(2);
 				aux[i][0] = aux[i][1] = NULL;
 				aux[i][0] = allocate<char>(keylen);
-				aux[i][1] = allocate<char>(valuelen);
+				//the key must be a valid string before the next allocation can fail,
+				//because releasing it measures its length
 				std::copy(key,key+keylen,aux[i][0]);
+				aux[i][1] = allocate<char>(valuelen);
 				std::copy(valuestart,valuestart+valuelen-1,aux[i][1]);
 				aux[i][1][valuelen-1]='\0';
 				i++;
